@@ -83,6 +83,7 @@ Theorem C01_source_never_stuck :
   forallb (fun k => forallb (fun he => no_stuck (sym_run fn_validInputSize k he)) [None; Some true; Some false])
           [KStr; KFlt true; KFlt false; KIntW W8; KIntW WInt; KUintW W8; KUintW WInt; KSlc; KOtherKind "Bool"] = true.
 Proof. exact size_never_stuck. Qed.
+Print Assumptions C01_source_never_stuck.
 
 (* THROUGH THE RULE TEXT, unbounded: strconv.Itoa then strconv.Atoi is the identity on every int64,
    and for every pair of int64 bounds the text  key=lo~hi[|msg]  (resp. key=b[|msg]) written by the
@@ -107,6 +108,7 @@ Theorem C01_one_sided_through_text : forall lower he rule key b m obj field v x,
     negb (in_set (if lower then (if he then RGe else RGt) else (if he then RLe else RLt)) b b x) /\
   (length (one_sided lower he rule (RuleTextSpec.rule_text r) obj field v) <= 1)%nat.
 Proof. exact one_bound_rules_text. Qed.
+Print Assumptions C01_one_sided_through_text.
 Theorem C01_eq_noeq_through_text : forall want key b m obj field v x,
   in_int64 b = true -> not_bracketed key = true ->
   let r := {| r_key := key; r_val := itoa b; r_msg := m |} in
